@@ -113,7 +113,8 @@ impl FeelNumber {
   }
   ///
   pub fn even(&self) -> bool {
-    dec_is_zero(&dec_remainder(&self.0, &DEC_TWO))
+    // the plain remainder is refused (NaN, which is not zero) for numbers of more than 34 digits
+    dec_is_zero(&dec_modulo(&self.0, &DEC_TWO))
   }
   ///
   pub fn exp(&self) -> Self {
